@@ -108,7 +108,7 @@ def run(tier, seed, rep):
     # stage A + B: laws of the reference layer and exhaustive bounded cases emitted by TLC
     out = core.workdir() / "c01_cases.ndjson"
     r = core.model_check("MC_ProForma", "MC_ProForma_thorough.cfg" if thorough else "MC_ProForma.cfg",
-                         env={"OUT_FILE": str(out)}, workers=4, xmx="6g")
+                         env={"OUT_FILE": str(out)}, workers=8, xmx="6g")
     rep.add_mc("MC_ProForma", r)
     evs = []
     with open(out) as fh:
